@@ -111,7 +111,14 @@ def run_scenario(scen, api, ext, proto):
     for n in ("on_connect", "on_disconnect", "on_message", "on_publish", "on_subscribe", "on_unsubscribe", "on_pre_connect"):
         setattr(c, n, hook(n))
         installed.add(n)
-    if ext or cbname.startswith("on_socket"):
+    if ext == 2 and not cbname.startswith("on_socket"):
+        # an event loop that only wants to know when to watch the socket for writing: the two write-registration callbacks
+        # alone (without on_socket_open / on_socket_close, reconnect() inside a callback does not run into known finding F17)
+        for n in ("on_socket_register_write", "on_socket_unregister_write"):
+            setattr(c, n, hook(n))
+            installed.add(n)
+        ext = True
+    elif ext or cbname.startswith("on_socket"):
         for n in ("on_socket_open", "on_socket_close", "on_socket_register_write", "on_socket_unregister_write"):
             setattr(c, n, hook(n))
             installed.add(n)
@@ -239,8 +246,8 @@ class LockStream:
 
     def gen(self, rng, tier):
         # the space is finite: each case covers a slice of the full product deterministically from the PRNG
-        combos = [(s, a, e, p) for s in SCEN for a in APIS for e in (0, 1) for p in (4, 5)]
-        k = 12 if tier == "quick" else 64
+        combos = [(s, a, e, p) for s in SCEN for a in APIS for e in (0, 1, 2) for p in (4, 5)]
+        k = 18 if tier == "quick" else 96
         start = rng.randrange(len(combos))
         return [f"scen {s} {a} ext={e} proto={p}" for (s, a, e, p) in [combos[(start + i * 37) % len(combos)] for i in range(k)]]
 
@@ -248,7 +255,7 @@ class LockStream:
         obs = []
         for line in case:
             t = line.split()
-            res, installed, written = run_scenario(t[1], t[2], t[3] == "ext=1", int(t[4].split("=")[1]))
+            res, installed, written = run_scenario(t[1], t[2], int(t[3].split("=")[1]), int(t[4].split("=")[1]))
             obs.append(f"held={','.join(res['held'] or []) if res['held'] is not None else '?'} outcome={res['outcome']} "
                        f"written={written} sock={res['sock']} lostwake={res['lostwake']} installed={','.join(installed)}")
         return obs
